@@ -97,6 +97,15 @@ def validator_expectations(lines, obs):
                 return fail(ln, "a lifetime model over dimensions with time first is accepted", "ok", ob)
             if not ok and ob != "err":
                 return fail(ln, "lifetime models reject dimension sets whose time dimension is not first", "err", ob)
+        elif t[0] == "mkltp" and t[1] in dsets and t[4] in arrd:
+            own = dsets[t[1]]
+            ok = bool(own) and own[0].split(":")[1] == t[2] and t[3] in ("start", "middle", "end")
+            own_letters = [d.split(":")[1] for d in own]
+            foreign = [d for d in arrd[t[4]] if d.split(":")[1] not in own_letters]
+            if ok and foreign and ob != "err":
+                return fail(ln, "a lifetime parameter over a dimension the model does not have is refused (labels decide, not lengths)", "err", ob)
+            if ok and not foreign and all(d in own for d in arrd[t[4]]) and ob != "ok":
+                return fail(ln, "a lifetime parameter over dimensions of the model, in any order, is accepted", "ok", ob)
     return None
 
 
